@@ -16,6 +16,7 @@ namespace
         mc::add_bfs(mn, [mn] { return std::unique_ptr<mc::Model>(new c02::MapModel<std::map<int, int, Cmp>, c02::NoStdMap, Cmp>(mn, mc::thorough() ? 3 : 2, 3, true)); });
         mc::add_bfs(sn, [sn] { return std::unique_ptr<mc::Model>(new c02::SetModel<std::set<int, Cmp>, c02::NoStdSet, false, Cmp>(sn, mc::thorough() ? 4 : 3)); });
         mc::add_check(mn + "_large", [mn] { c02::large_map_body<std::map<int, int, Cmp>, c02::NoStdMap, Cmp>(mn); });
+        mc::add_check(mn + "_long_history", [mn] { c02::map_long_history_body<std::map<int, int, Cmp>, c02::NoStdMap, Cmp>(mn); });
         mc::add_check(mn + "_long_initlist", [mn] { c02::long_initlist_body<std::map<int, int, Cmp>, c02::NoStdMap, Cmp>(mn); });
         mc::add_check(sn + "_large", [sn] { c02::large_set_body<std::set<int, Cmp>, c02::NoStdSet, Cmp>(sn); });
     }
